@@ -256,14 +256,37 @@ func Run(sc Scenario, root string, rseed int64) *Outcome {
 			if !discovered {
 				continue
 			}
+			// as in the one-cycle oracle: only a copy that was the ONLY in_transfer copy is a completed hand-over
+			// (two in_transfer copies are duplicates of each other), and ANY other shard that lists the target in
+			// normal state and has really scraped it three times justifies the removal, not only the recorded destination
+			nIT := 0
+			for _, m2 := range before.Shards {
+				if e2, ok := m2[id]; ok && e2.State == "in_transfer" {
+					nIT++
+				}
+			}
+			if nIT != 1 {
+				continue
+			}
 			srcScrapes := w.ScrapedBy(si, id) - mv.srcAtBegin
 			dstScrapes := -1
-			if mv.dst < w.NumShards() && w.Gen(mv.dst) == mv.dstGen {
-				dstScrapes = w.ScrapedBy(mv.dst, id) - mv.dstAtBegin
+			for sj, m2 := range before.Shards {
+				if sj == si || sj >= w.NumShards() {
+					continue
+				}
+				if e2, ok := m2[id]; ok && e2.State == "" {
+					n := w.ScrapedBy(sj, id)
+					if sj == mv.dst && w.Gen(mv.dst) == mv.dstGen {
+						n = w.ScrapedBy(mv.dst, id) - mv.dstAtBegin
+					}
+					if n > dstScrapes {
+						dstScrapes = n
+					}
+				}
 			}
 			out.IndependentHandovers++
 			if srcScrapes < 3 || (dstScrapes >= 0 && dstScrapes < 3) {
-				out.HandoverViol2 = append(out.HandoverViol2, fmt.Sprintf("%s %d: target %d left source shard %d after the source really scraped it %d times and the destination shard %d %d times since the move began (harness counts at the target farm)", label, c, id, si, srcScrapes, mv.dst, dstScrapes))
+				out.HandoverViol2 = append(out.HandoverViol2, fmt.Sprintf("%s %d: target %d left source shard %d after the source really scraped it %d times and the best normal copy elsewhere (recorded destination: shard %d) %d times (harness counts at the target farm)", label, c, id, si, srcScrapes, mv.dst, dstScrapes))
 			}
 		}
 		// moves begun
